@@ -10,30 +10,31 @@ every PlaylistEntity row refers to an existing playlist and an existing track, n
 Here: every state reachable through the modelled API satisfies them.
 The per-track derived columns of C11 are outside this part (track work-package).
 -/
-import Proofs.V2WfRaw
+import Proofs.V2Run
 
 namespace EngineModel.Properties.C11V2
 open EngineModel EngineModel.Db.Chain EngineModel.Db.V2 EngineModel.Spec
 
 /-- The invariants are kept by every operation of the crate / track API … -/
-theorem C11V2_step_preserves {S : Ord} {d : Db} (h : Inv S d) (op : Db.V2.Op) (hapi : apiOp op = true) :
-    Inv (ordStep S d op) (step d op).1 :=
-  inv_step h op hapi
+theorem C11V2_step_preserves {S : Ord} {d : Db} (h : Inv S d) (ho : AllOwn d) (op : Db.V2.Op) (hapi : apiOp op = true) :
+    Inv (ordNext S (absF d) op (step d op).2) (step d op).1 ∧ AllOwn (step d op).1 :=
+  ⟨inv_step h op (memOp_of_apiOp hapi), allOwn_step h ho op hapi⟩
 
 /-- … and imply the executable well-formedness predicate. -/
-theorem C11V2_inv_wfRaw {S : Ord} {d : Db} (h : Inv S d) : wfRaw d = true :=
-  wfRaw_of_inv h
+theorem C11V2_inv_wfRaw {S : Ord} {d : Db} (h : Inv S d) (ho : AllOwn d) : wfRaw d = true :=
+  wfRaw_of_inv h ho
 
 /-- reachable ⇒ WfRaw: after every history of the crate / track API from the empty library (hence after every
 prefix of it) the raw tables are well-formed. -/
 theorem C11V2_reachable_wfRaw (ops : List Db.V2.Op) (hapi : ops.all apiOp = true) :
-    wfRaw (run Db.empty ops) = true :=
-  wfRaw_of_inv (inv_run inv_empty ops hapi)
+    wfRaw (run Db.empty ops) = true := by
+  obtain ⟨_, hI, ho⟩ := inv_allOwn_hist ops hapi
+  exact wfRaw_of_inv hI ho
 
 /-- What `wfRaw` rests on, in logical form: the chains are single acyclic lists covering all rows (from the
 representation relation of C09: the walk from the tail returns a duplicate-free list containing exactly the ids
 of the rows of the key), parents are live or 0 and the parent relation has no cycle, entries reference live
-playlists and live tracks. -/
+playlists and live tracks of the library's own database. -/
 theorem C11V2_reachable_structure (ops : List Db.V2.Op) (hapi : ops.all apiOp = true) :
     let d := run Db.empty ops
     (∀ k, ∃ l, walkIds d.pl k = .ok l ∧ l.Nodup ∧ ∀ x, x ∈ l ↔ ∃ r ∈ d.pl, r.id = x ∧ r.key = k) ∧
@@ -42,7 +43,7 @@ theorem C11V2_reachable_structure (ops : List Db.V2.Op) (hapi : ops.all apiOp = 
     (∀ x, (absF d).isAncestor x x = false) ∧
     (∀ e ∈ d.pe, e.key ∈ ids d.pl ∧ e.val.track ∈ d.tracks ∧ e.val.uuid = 0) := by
   intro d
-  have hI := inv_run inv_empty ops hapi
+  obtain ⟨_, hI, ho⟩ := inv_allOwn_hist ops hapi
   have cov : ∀ {α : Type} {A : Int → List Int} {t : Table α}, R A t → ∀ k,
       ∃ l, walkIds t k = .ok l ∧ l.Nodup ∧ ∀ x, x ∈ l ↔ ∃ r ∈ t, r.id = x ∧ r.key = k := by
     intro α A t h k
@@ -56,16 +57,17 @@ theorem C11V2_reachable_structure (ops : List Db.V2.Op) (hapi : ops.all apiOp = 
       rw [← absF_ids]
       exact hI.pl.wf.parent_live (rowCrate r) (mem_crates_of_row hr) r.key (by simp [rowCrate, parentOpt_of_ne h0])
   · intro e he
-    exact ⟨(hI.mem.live (core e) (mem_cores.mpr ⟨e, he, rfl⟩)).1, (hI.mem.live (core e) (mem_cores.mpr ⟨e, he, rfl⟩)).2,
-      hI.mem.own (core e) (mem_cores.mpr ⟨e, he, rfl⟩)⟩
+    have hu := ho (core e) (mem_cores.mpr ⟨e, he, rfl⟩)
+    exact ⟨(hI.mem.live (core e) (mem_cores.mpr ⟨e, he, rfl⟩) hu).1, (hI.mem.live (core e) (mem_cores.mpr ⟨e, he, rfl⟩) hu).2, hu⟩
 
 /- Full statement for the chain part (false, see `C11V2_chains_counterexample`):
    ∀ ops, wfChains (run Db.empty ops) = true. -/
 /-- The chain part alone also holds under the table-level playlist_entity_table operations (which may address
 playlists and tracks that do not exist), as long as the track ids passed to add_back are positive. -/
 theorem C11V2_reachable_wfChains_partial (ops : List Db.V2.Op) (hok : ops.all okOp = true) :
-    wfChains (run Db.empty ops) = true :=
-  wfChains_of_chInv (chInv_run chInv_empty ops hok)
+    wfChains (run Db.empty ops) = true := by
+  obtain ⟨_, _, h⟩ := chInv_hist ops hok
+  exact wfChains_of_chInv h
 
 /-- … and fails without that restriction (known finding, findings/C09.json: the schema's delete trigger is
 declared `WHEN OLD.trackId > 0`). -/
